@@ -1,16 +1,16 @@
 SPECIFICATION Spec
 CONSTANTS
-  Roots <- N_Roots
-  Ops <- N_FftOps
+  Roots <- N_ReaderRoots
+  Ops <- N_NoOps
   Scheds = {"sync"}
   MaxDepth = 1
   MaxRuns = 1
   MaxTasks = 12
-  FftNeedsOneChunk = FALSE
+  FftNeedsOneChunk = TRUE
   ChirpKeyByChannel = TRUE
   EagerOps <- None_
   NumpyOps <- None_
-  ReaderPerBlock = FALSE
+  ReaderPerBlock = TRUE
   OverwriteTags <- None_
 VIEW View
 INVARIANT SameAsNumpy
